@@ -407,3 +407,25 @@ package asp
 //@      (len(ops) >= 2 && ops[0].Op.Precedence() < ops[1].Op.Precedence() && ops[0].Expr != nil && \
 //@       !(ops[0].Op.Lazy() && obj.IsTruthy() != (ops[0].Op == And)) && called("(scope).interpretExpression") && !called("(scope).interpretOp")) ==> \
 //@      (forall j int :: 0 <= j && j < len(arg_ops) ==> arg_ops[j].Op.Precedence() > ops[0].Op.Precedence())
+
+// range(start, stop, step) as in Python: it has ceil((stop - start) / step) items for a positive step, the
+// mirror image for a negative one (never fewer than zero), its k-th item is start + k*step, and a zero step is
+// refused when the range is built.
+//@ spec rangeLen(start int, stop int, step int) int = \
+//@      ite(step > 0, ite(stop > start, (stop - start + step - 1) / step, 0), ite(start > stop, (start - stop - step - 1) / (0 - step), 0))
+//@ func (pyRange).Len
+//@   requires r != nil && r.Step != 0
+//@   modifies nothing
+//@   ensures python_length [C16]: result == rangeLen(r.Start, r.Stop, r.Step)
+//@ func (pyRange).toList
+//@   requires r != nil && r.Step != 0 && extraCapacity >= 0
+//@   modifies nothing
+//@   invariant "loop#1" items: 0 <= len(ret) && len(ret) + n == rangeLen(r.Start, r.Stop, r.Step) && n >= 0 && i == r.Start + len(ret) * r.Step && \
+//@      (forall k int :: 0 <= k && k < len(ret) ==> ret[k] == box(r.Start + k * r.Step))
+//@   ensures every_item [C16]: len(result) == rangeLen(r.Start, r.Stop, r.Step)
+//@ func pyRangeFunc
+//@   opt nopanic=off
+//@   opt panics=allowed
+//@   opt inline=off
+//@   callsite (scope).Assert a_zero_step_is_refused [C16]: arg_condition == (step != 0)
+//@   ensures no_zero_step [C16]: called("(scope).Assert")
